@@ -248,6 +248,56 @@ static Json::Value genC09(Rng& rng) {
   // killed processes stay (the ranking of the next tick is over the same set)
   plan["kill"]["default"]["linger"] = -1;
   plan["clock_off"] = (Json::Int64)rng.range(0, 999999999);
+  // A grower whose usage / moving average is *exactly* a non-binary ratio
+  // (1.1, 1.2, 1.6, 1.7) on the second tick: with u1 = p k and average q k,
+  // k = 3 * 4096 * j, the history u0 = 4 * 4096 * j * (4q - p) gives
+  // avg1 = 3/4 * u0/4 + u1/4 = q k. The other siblings shrink (growth 1.0);
+  // the grower is the second largest of four, inside the top half.
+  if (plugin == "kill_by_memory_size_or_growth" && rng.chance(0.12)) {
+    static const int kP[] = {11, 12, 16, 17};
+    int p = kP[rng.below(4)], q = 10;
+    int64_t j = rng.range(1, 64);
+    int64_t k = 3 * 4096 * j;
+    int64_t u0 = 4 * 4096 * j * (4 * q - p), u1 = p * k;
+    Json::Value kids2(Json::arrayValue);
+    Json::Value par(Json::objectValue);
+    par["path"] = "w";
+    par["cur"] = (Json::Int64)(1LL << 50);
+    kids2.append(par);
+    struct Sib {
+      int64_t a, b;
+    };
+    // shrinking to a quarter: average after tick 1 = 3a/16 + a/16 = a/4 = b
+    int64_t big = u1 * 8, small = u1 / 4 / 4096 * 4096;
+    Sib sib[4] = {{big * 4, big}, {u0, u1}, {small * 4, small},
+                  {small * 2, small / 2 / 4096 * 4096}};
+    Json::Value ops2(Json::arrayValue);
+    for (int i = 0; i < 4; i++) {
+      Json::Value c(Json::objectValue);
+      c["path"] = "w/c" + std::to_string(i);
+      c["cur"] = (Json::Int64)sib[i].a;
+      Json::Value pids(Json::arrayValue);
+      pids.append(5000001 + i);
+      c["pids"] = pids;
+      kids2.append(c);
+      Json::Value op(Json::objectValue);
+      op["t"] = 1;
+      op["op"] = "set";
+      op["cg"] = c["path"];
+      op["v"]["cur"] = (Json::Int64)sib[i].b;
+      ops2.append(op);
+    }
+    plan["world"]["cgroups"] = kids2;
+    plan["ops"] = ops2;
+    plan["ticks"] = 2;
+    plan["scripts"]["pk0_det"] = "C";
+    Json::Value& a2 = plan["config"]["rulesets"][0]["actions"][0]["args"];
+    a2["size_threshold"] = "100";
+    a2["growing_size_percentile"] = "50";
+    a2["min_growth_ratio"] = std::string("1.") + std::to_string(p - 10);
+    a2["dry"] = "true";
+    plan["exact_growth"] = true;
+  }
   return plan;
 }
 
